@@ -5,7 +5,7 @@
    every theorem below is re-checked against what the code says today. *)
 From FRP Require Import Model.Literals Model.CfgMsg Model.CfgWire Model.Validate
   Model.FlagsCheck Model.Template Proofs.CfgMsgProofs Proofs.ValidateProofs Proofs.LiteralsProofs Proofs.FlagsProofs
-  Proofs.TemplateProofs Model.ValidateSections Proofs.ValidateSectionsProofs Model.StrictLoad Proofs.StrictLoadProofs gen.GenMsg gen.GenCfgMsg gen.GenFlags gen.GenLoadShape Golden.GoldenFlags.
+  Proofs.TemplateProofs Model.LegacyConvCheck Proofs.LegacyConvProofs gen.GenLegacyConv Golden.GoldenLegacyConv Model.ValidateSections Proofs.ValidateSectionsProofs Model.StrictLoad Proofs.StrictLoadProofs Model.RenderOwn Proofs.RenderOwnProofs gen.GenMsg gen.GenCfgMsg gen.GenFlags gen.GenLoadShape Golden.GoldenFlags.
 Open Scope Z_scope.
 
 (* ---- the registration message loses nothing the server acts on ---- *)
@@ -84,6 +84,27 @@ Theorem C18_newproxy_is_wire_schema : newproxy_matches_schema cfg_structs struct
 Proof. vm_compute. reflexivity. Qed.
 Print Assumptions C18_newproxy_is_wire_schema.
 
+(* ---- legacy ini, common sections ---- *)
+
+(* Reflective, over today's pkg/config/legacy/conversion.go, the `ini:"…"` tags of the legacy structs
+   (gen/GenLegacyConv.v), today's json tags (gen/GenCfgMsg.v) and the pinned table Golden/GoldenLegacyConv.v:
+   every assignment of Convert_ClientCommonConf_To_v1 / Convert_ServerCommonConf_To_v1 is understood; the
+   assignments are exactly the pinned ones (each legacy ini key sets the v1 setting the table names, in the
+   pinned form — plain copy, cast, bool -> *bool, bool -> list element, bool -> table present, text -> port
+   ranges — under the pinned guard: a crossed, dropped, transformed or re-guarded assignment breaks this);
+   no ini key is read twice and no v1 setting written twice; every ini key the legacy structs declare is
+   converted or on the pinned not-converted list (log_way). *)
+Theorem C18_legacy_conversion_matches :
+  exists es,
+    lc_entries cfg_structs legacy_conv = Some es /\
+    incl es golden_legacy_conv /\ incl golden_legacy_conv es /\
+    NoDup (map lc_sec_ini es) /\ NoDup (map lc_sec_target es) /\
+    forall sec ini lp, In (sec, ini, lp) legacy_keys -> lc_has_tag ini = true ->
+      In (sec ++ "/" ++ ini)%string (map lc_sec_ini es) \/ In (sec, ini) golden_legacy_not_converted.
+Proof. exact (legacy_conv_sound cfg_structs golden_legacy_conv golden_legacy_not_converted legacy_conv legacy_keys
+                (eq_refl true <: lc_all_ok cfg_structs golden_legacy_conv golden_legacy_not_converted legacy_conv legacy_keys = true)). Qed.
+Print Assumptions C18_legacy_conversion_matches.
+
 (* ---- strict mode, for every schedule of loads in one process ---- *)
 
 (* Reflective, over today's source (gen/GenLoadShape.v): in config.LoadConfigure the mutex is taken before
@@ -119,6 +140,39 @@ Theorem C18_early_unlock_refuted :
     exists t, nth_error (sl_ths s) 0 = Some t /\ sl_todo t = [] /\ sl_rej t = false /\ sl_verdict (sl_ld t) = true.
 Proof. exact early_unlock_refuted. Qed.
 Print Assumptions C18_early_unlock_refuted.
+
+(* Reflective: every typed level of a document — every UnmarshalJSON method of package v1: proxies[i],
+   visitors[i], proxies[i].plugin, visitors[i].plugin — reads the strict switch (it is one of the readers the
+   schedule theorem above speaks about); a typed level that decodes without consulting it breaks this. *)
+Theorem C18_every_typed_level_reads_switch : sl_typed_levels_ok typed_unmarshalers switch_uses = true.
+Proof. vm_compute. reflexivity. Qed.
+Print Assumptions C18_every_typed_level_reads_switch.
+
+(* ---- the rendered bytes a load parses are its own document ---- *)
+
+(* Reflective, over today's RenderWithTemplate (gen/GenLoadShape.v: render_events): the template writes into a
+   buffer created by the call and the call returns that buffer's bytes (or a copy); no buffer comes from a
+   pool / package variable and nothing is Put back. *)
+Theorem C18_render_buffer_owned : ro_mode_of render_events = RoOwned.
+Proof. vm_compute. reflexivity. Qed.
+Print Assumptions C18_render_buffer_owned.
+
+(* For the render step derived from today's source, any number of loads of different documents and EVERY
+   interleaving of their render and parse steps: a load that has finished parsed its own document. *)
+Theorem C18_load_parses_own_document_all_schedules : forall docs sched,
+  let s := ro_run (ro_mode_of render_events) sched (ro_init docs) in
+  forall i t, nth_error (ro_ths s) i = Some t -> ro_todo t = [] -> ro_parsed t = Some (ro_doc t).
+Proof. exact (render_own_of_events render_events (eq_refl RoOwned <: ro_mode_of render_events = RoOwned)). Qed.
+Print Assumptions C18_load_parses_own_document_all_schedules.
+
+(* why the buffer has to be owned: with a buffer that is handed around, the schedule [0;1;0] makes the first
+   load parse the second load's document *)
+Theorem C18_render_shared_refuted :
+  exists sched,
+    let s := ro_run RoShared sched (ro_init [1; 2]%nat) in
+    exists t, nth_error (ro_ths s) 0 = Some t /\ ro_todo t = [] /\ ro_parsed t = Some 2%nat /\ ro_doc t = 1%nat.
+Proof. exact render_shared_refuted. Qed.
+Print Assumptions C18_render_shared_refuted.
 
 (* ---- command-line flags ---- *)
 
